@@ -158,6 +158,36 @@ type cReply struct {
 	Set   []string
 	Kinds map[string][]int
 	Err   string
+	// Lint: the result set encoded and decoded again by the same goroutine differs from the result set ("" = it does not)
+	JSONBad string
+}
+
+func jsonDiffers(rs *zlint.ResultSet) string {
+	b, err := json.Marshal(rs)
+	if err != nil {
+		return "not encodable: " + err.Error()
+	}
+	var back struct {
+		Results map[string]struct {
+			Result  string `json:"result"`
+			Details string `json:"details"`
+		} `json:"lints"`
+	}
+	if err := json.Unmarshal(b, &back); err != nil {
+		return "not decodable: " + err.Error()
+	}
+	if len(back.Results) != len(rs.Results) {
+		return "number of results"
+	}
+	for n, r := range rs.Results {
+		if r == nil {
+			continue
+		}
+		if br, ok := back.Results[n]; !ok || br.Result != r.Status.String() || br.Details != string([]rune(r.Details)) {
+			return fmt.Sprintf("%s: %s %q encoded as %s %q", n, r.Status.String(), r.Details, br.Result, br.Details)
+		}
+	}
+	return ""
 }
 
 func lookupNames(reg lint.Registry, k string) []string {
@@ -223,6 +253,8 @@ func (u *cUniverse) exec(c cOp, reg lint.Registry, objs []*Target) (rep cReply, 
 			rep.Names, rep.St, rep.Dg = append(rep.Names, r.r), append(rep.St, r.st), append(rep.Dg, r.dg)
 		}
 		rep.Flags = []bool{rs.NoticesPresent, rs.WarningsPresent, rs.ErrorsPresent, rs.FatalsPresent}
+		// a bulk pipeline encodes what it computed: the JSON made by this goroutine must say what its result set says
+		rep.JSONBad = jsonDiffers(rs)
 	case "Names":
 		rep.Seq = u.ranks(reg.Names())
 	case "Read":
@@ -382,6 +414,7 @@ func (r cReply) event(m ev.M) ev.M {
 	}
 	m["kinds"] = k
 	m["err"] = r.Err
+	m["jsonBad"] = r.JSONBad
 	return m
 }
 
